@@ -84,7 +84,7 @@ def c11_GetMapping_Handle : List String := ["getClientID", "connCodeService.GetM
 def c11_HTTPDomainCreate_Handle : List String := ["checker.IsBaseDomainAllowed", "checker.IsSubdomainAvailable", "creator.CreateHTTPDomainMapping"]
 def c11_HTTPDomainDelete_Handle : List String := ["deleter.DeleteHTTPDomainMapping"]
 def c11_HTTPDomainList_Handle : List String := ["lister.ListHTTPDomainMappings"]
-def c11_HTTPDomainRepo_DeleteMapping : List String := ["GetMapping", "storage.Delete", "storage.Delete", "removeFromClientMappingList", "removeFromGlobalMappingList"]
+def c11_HTTPDomainRepo_DeleteMapping : List String := ["GetMapping", "storage.Delete", "storage.Delete", "storage.Delete", "removeFromClientMappingList", "removeFromGlobalMappingList"]
 def c11_HandleDNSQueryRequest : List String := ["getClientIDFromConnection", "getDefaultTargetClientID", "GetControlConnectionByClientID", "handleDNSQueryCrossNode", "Stream.WritePacket"]
 def c11_HandleDNSResolveRequest : List String := ["getClientIDFromConnection", "getDefaultTargetClientID", "GetControlConnectionByClientID", "Stream.WritePacket"]
 def c11_HandleSOCKS5TunnelRequest : List String := ["cloudControl.GetPortMapping", "getClientIDFromConnection", "GetControlConnectionByClientID", "bridgeManager.BroadcastTunnelOpen", "Stream.WritePacket"]
